@@ -84,6 +84,17 @@ func genC06(tier string) []Scenario {
 			add(batchScn{name: fmt.Sprintf("positional n=%d c=%d shape=%s", n, c, shapeNames[sh]), n: n, c: c, shape: sh, yield: true, execMenu: okOrErrMenu, bound: 1, anyExec: sh == shInts})
 		}
 	}
+	// stop-on-error and cancellation: post still sees every slot as item i's own outcome (or an
+	// error for an item that never ran), once, after everything that runs has settled
+	for _, c := range []int{0, 2} {
+		for _, n := range []int{2, 3} {
+			bd := 1
+			add(batchScn{name: fmt.Sprintf("positional-stopmode n=%d c=%d exec=ok|err", n, c), n: n, c: c, stop: true, shape: shResults, yield: c > 0, execMenu: okOrErrMenu, bound: bd})
+			if n == 2 || c == 0 {
+				add(batchScn{name: fmt.Sprintf("positional-cancelled n=%d c=%d exec=ok|err", n, c), n: n, c: c, shape: shResults, yield: c > 0, execMenu: okOrErrMenu, bound: bd, cancel: cancelSpec{kind: 1, lazy: true}})
+			}
+		}
+	}
 	// prep failure: post must not run
 	add(batchScn{name: "positional prep-fails", n: 2, c: 2, shape: shResults, prepErr: true, execMenu: okMenu, bound: 0})
 	return out
@@ -201,6 +212,22 @@ func genC08(tier string) []Scenario {
 				}
 			}
 		}
+	}
+	// slow executions (1 s of virtual time each) with more items than workers + queue: the
+	// submitter stays blocked on a full queue while time passes
+	for _, c := range []int{1, 2} {
+		n := 3*c + 2
+		sc := batchScn{name: fmt.Sprintf("limit-slow n=%d c=%d exec=1s", n, c), n: n, c: c, budget: 1, shape: shResults, execMenu: okMenu, postMenu: postX, bound: 0, chkLimit: true, execDur: time.Second}
+		out = append(out, sc.scenario())
+	}
+	// the limit must be usable in stop-on-error mode as well
+	for _, c := range []int{2, 3} {
+		d := make([]int, c)
+		for i := range d {
+			d[i] = i
+		}
+		sc := batchScn{name: fmt.Sprintf("limit-barrier-stopmode n=%d c=%d D=%v", c+1, c, d), n: c + 1, c: c, stop: true, budget: 1, shape: shResults, execMenu: okMenu, postMenu: postX, barrier: d, bound: 1, chkLimit: true}
+		out = append(out, sc.scenario())
 	}
 	// the worker pool directly: never more than max(w,1) tasks in flight
 	for _, w := range []int{-1, 0, 1, 2, 3} {
